@@ -676,6 +676,8 @@ impl GraphTensor {
         // Restore edges
         for edge in snapshot.edges {
             let edge_type = &snapshot.edge_types[edge.edge_type_idx as usize];
+            // Keep the snapshotted edge id: edge data is keyed by it
+            graph.next_edge_id.store(edge.edge_id.0, Ordering::Relaxed);
             graph.add_edge(edge.from, edge.to, edge_type, edge.directed);
         }
 
